@@ -349,6 +349,29 @@ Section Cpc.
   Definition run_A (s : nstate) (ops : list op) : nstate := fold_left step_A ops s.
   Definition run_B (s : nstate) (ops : list op) : nstate := fold_left step_B ops s.
 
+  (* the Delegate / Undelegate / WithdrawReward logs of one step: the receipt on chain A; on chain B the image of the
+     module events the native submission produced *)
+  Definition logs_A (s : nstate) (o : op) : list log :=
+    match o with
+    | OCall sender path c =>
+        match cpc_step s (precompile_caller sender path) c with Some (_, logs, _, _) => logs | None => [] end
+    | _ => []
+    end.
+
+  Definition logs_B (s : nstate) (o : op) : list log :=
+    match o with
+    | OCall sender path c =>
+        let caller := precompile_caller sender path in
+        match native_prog s caller c with Some (_, evs, _) => flat_map (logs_of_event caller) evs | None => [] end
+    | _ => []
+    end.
+
+  Fixpoint trace (logs : nstate -> op -> list log) (step : nstate -> op -> nstate) (s : nstate) (ops : list op) : list (list log) :=
+    match ops with
+    | [] => []
+    | o :: r => logs s o :: trace logs step (step s o) r
+    end.
+
   (* every native message chain A's history hands to the message servers on behalf of a precompile call, with the
      immediate caller of that call *)
   Fixpoint issued_A (s : nstate) (ops : list op) : list (Z * nmsg) :=
